@@ -1,6 +1,7 @@
 package pure
 
 import (
+	"sort"
 	"bytes"
 	"runtime/debug"
 	"strings"
@@ -334,6 +335,7 @@ func checkKeeper(in c18Input) (msg string) {
 	r1, s1, r2, s2 := sdk.AccAddress(unhex(in.X[0])), sdk.AccAddress(unhex(in.X[1])), sdk.AccAddress(unhex(in.Y[0])), sdk.AccAddress(unhex(in.Y[1]))
 	coin := func(n int64) sdk.Coin { return sdk.NewInt64Coin("nund", n) }
 
+	baseWL := app.EnterpriseKeeper.GetAllWhitelistedAddresses(ctx)
 	// --- enterprise: purchase orders
 	if a[0] != b[0] {
 		poA := enttypes.EnterpriseUndPurchaseOrder{Id: a[0], Purchaser: r1.String(), Amount: coin(11), Status: enttypes.StatusRaised}
@@ -445,6 +447,113 @@ func checkKeeper(in c18Input) (msg string) {
 		tss := app.BeaconKeeper.GetAllBeaconTimestamps(ctx, b[0])
 		if len(tss) != want {
 			return fmt.Sprintf("listing the timestamps of BEACON %d returns %d, %d were written for it", b[0], len(tss), want)
+		}
+		// every other listing of the records of registration b[0] (forward, reverse, export), with the registration's
+		// counters describing exactly what was written
+		keys := []uint64{b[1]}
+		if a[0] == b[0] && a[1] != b[1] {
+			keys = append(keys, a[1])
+		}
+		sort.Slice(keys, func(i, j int) bool { return keys[i] < keys[j] })
+		lo, hi := keys[0], keys[len(keys)-1]
+		app.WrkchainKeeper.SetWrkChain(ctx, wrkchaintypes.WrkChain{WrkchainId: b[0], Moniker: "B", Owner: r2.String(), Lastblock: hi, LowestHeight: lo, NumBlocks: uint64(len(keys))})
+		app.BeaconKeeper.SetBeacon(ctx, beacontypes.Beacon{BeaconId: b[0], Moniker: "B", Owner: r2.String(), LastTimestampId: hi, FirstIdInState: lo, NumInState: uint64(len(keys))})
+		same := func(got []uint64, wantKeys []uint64) bool {
+			if len(got) != len(wantKeys) {
+				return false
+			}
+			for i := range got {
+				if got[i] != wantKeys[i] {
+					return false
+				}
+			}
+			return true
+		}
+		rev := make([]uint64, len(keys))
+		for i := range keys {
+			rev[len(keys)-1-i] = keys[i]
+		}
+		var fw, bw, ex []uint64
+		app.WrkchainKeeper.IterateWrkChainBlockHashes(ctx, b[0], func(x wrkchaintypes.WrkChainBlock) bool { fw = append(fw, x.Height); return false })
+		app.WrkchainKeeper.IterateWrkChainBlockHashesReverse(ctx, b[0], func(x wrkchaintypes.WrkChainBlock) bool { bw = append(bw, x.Height); return false })
+		for _, x := range app.WrkchainKeeper.GetAllWrkChainBlockHashesForGenesisExport(ctx, b[0]) {
+			ex = append(ex, x.He)
+		}
+		if !same(fw, keys) || !same(bw, rev) || !same(ex, keys) {
+			return fmt.Sprintf("records of WRKChain %d were written at heights %v; forward iteration lists %v, reverse iteration %v, the genesis export %v", b[0], keys, fw, bw, ex)
+		}
+		fw, bw, ex = nil, nil, nil
+		app.BeaconKeeper.IterateBeaconTimestamps(ctx, b[0], func(x beacontypes.BeaconTimestamp) bool { fw = append(fw, x.TimestampId); return false })
+		app.BeaconKeeper.IterateBeaconTimestampsReverse(ctx, b[0], func(x beacontypes.BeaconTimestamp) bool { bw = append(bw, x.TimestampId); return false })
+		for _, x := range app.BeaconKeeper.GetAllBeaconTimestampsForExport(ctx, b[0]) {
+			ex = append(ex, x.Id)
+		}
+		if !same(fw, keys) || !same(bw, rev) || !same(ex, keys) {
+			return fmt.Sprintf("timestamps of BEACON %d were written with ids %v; forward iteration lists %v, reverse iteration %v, the genesis export %v", b[0], keys, fw, bw, ex)
+		}
+	}
+	// --- enterprise: every other listing (queues, locked, spent, whitelist) is complete and ascending
+	if a[0] != b[0] && !bytes.Equal(r1, r2) {
+		wantQ := func(name string, got []uint64, want ...uint64) string {
+			sort.Slice(want, func(i, j int) bool { return want[i] < want[j] })
+			if len(got) != len(want) {
+				return fmt.Sprintf("%s lists %v, expected %v", name, got, want)
+			}
+			for i := range got {
+				if got[i] != want[i] {
+					return fmt.Sprintf("%s lists %v, expected %v (ascending)", name, got, want)
+				}
+			}
+			return ""
+		}
+		app.EnterpriseKeeper.AddPoToRaisedQueue(ctx, a[0])
+		app.EnterpriseKeeper.AddPoToRaisedQueue(ctx, b[0])
+		if m := wantQ("the raised queue", app.EnterpriseKeeper.GetAllRaisedPurchaseOrders(ctx), a[0], b[0]); m != "" {
+			return m
+		}
+		app.EnterpriseKeeper.AddPoToAcceptedQueue(ctx, a[0])
+		if m := wantQ("the accepted queue", app.EnterpriseKeeper.GetAllAcceptedPurchaseOrders(ctx), a[0], b[0]); m != "" {
+			return m
+		}
+		app.EnterpriseKeeper.RemovePurchaseOrderFromAcceptedQueue(ctx, a[0])
+		app.EnterpriseKeeper.RemovePurchaseOrderFromRaisedQueue(ctx, a[0])
+		if m := wantQ("the accepted queue after removing the other order", app.EnterpriseKeeper.GetAllAcceptedPurchaseOrders(ctx), b[0]); m != "" {
+			return m
+		}
+		if m := wantQ("the raised queue after removing the other order", app.EnterpriseKeeper.GetAllRaisedPurchaseOrders(ctx), b[0]); m != "" {
+			return m
+		}
+		app.EnterpriseKeeper.AddAddressToWhitelist(ctx, r1)
+		lk := map[string]string{}
+		for _, l := range app.EnterpriseKeeper.GetAllLockedUnds(ctx) {
+			lk[l.Owner] = l.Amount.Amount.String()
+		}
+		sp := map[string]string{}
+		for _, l := range app.EnterpriseKeeper.GetAllSpentEFUNDs(ctx) {
+			sp[l.Owner] = l.Amount.Amount.String()
+		}
+		wl := map[string]bool{}
+		for _, x := range app.EnterpriseKeeper.GetAllWhitelistedAddresses(ctx) {
+			wl[x] = true
+		}
+		if len(lk) != 2 || lk[r1.String()] != "500" || lk[r2.String()] != "7" {
+			return fmt.Sprintf("locked eFUND listing is %v, written: %s=500, %s=7", lk, r1, r2)
+		}
+		if len(sp) != 2 || sp[r1.String()] != "100" || sp[r2.String()] != "2" {
+			return fmt.Sprintf("spent eFUND listing is %v, written: %s=100, %s=2", sp, r1, r2)
+		}
+		for _, x := range baseWL {
+			delete(wl, x) // entries of the genesis whitelist
+		}
+		if len(wl) != 2 || !wl[r1.String()] || !wl[r2.String()] {
+			return fmt.Sprintf("whitelist listing (without the genesis entries %v) is %v, written: %s, %s", baseWL, wl, r1, r2)
+		}
+		var bs []uint64
+		for _, x := range app.BeaconKeeper.GetAllBeacons(ctx) {
+			bs = append(bs, x.BeaconId)
+		}
+		if m := wantQ("the BEACON listing", bs, a[0], b[0]); m != "" {
+			return m
 		}
 	}
 	// --- streams
